@@ -27,20 +27,20 @@ LEVEL_TEXT = ('Lean 4 theorems (Mathlib matrices), for every basis matrix B with
               'leaves a smaller sum of squares; permuting the requested modes permutes the coefficients. The executable model (basis from the '
               'C11 mode model, Cramer solution of the normal equations, compose, remove — wired through the REGENERATED call-site argument projections) is proved equal to these abstract objects; IsUnit det(BtB) is proved equivalent to linear independence of the sampled modes over ordered fields; remove leaves samples outside the mask untouched; a '
               'coefficient vector for zernike_compose with the coefficients at the (regenerated) positions of the requested modes composes '
-              'B·c; the two einsum contractions are REGENERATED from their subscript strings (Gen.fitContract / Gen.removeContract: the model\'s B·c is the generated contraction, and the generated fit contraction applied to the transposed pseudo-inverse is the abstract fit), the sample numbering of opd.ravel() and basis.reshape(k,-1) is regenerated with its order and proved to agree (C order on both sides); and two concrete Zernike bases over Q (one ray; a 2x2 array with cosine, sine and radial modes) satisfy the independence hypothesis. PARTIAL: that np.linalg.pinv(basis)·opd is the '
+              'B·c; the two einsum contractions are REGENERATED from their subscript strings (Gen.fitContract / Gen.removeContract: the model\'s B·c is the generated contraction, and the generated fit contraction applied to the transposed pseudo-inverse is the abstract fit), the sample numbering of opd.ravel() and basis.reshape(k,-1) is regenerated with its order and proved to agree (C order on both sides); and three concrete Zernike bases (two unnormalised over Q with an all-true mask; one with the DEFAULT normalisation over R on a partial mask: modes [1,2,3], a masked-out sample, det(BtB) = 36) (one ray; a 2x2 array with cosine, sine and radial modes) satisfy the independence hypothesis. PARTIAL: that np.linalg.pinv(basis)·opd is the '
               'normal-equation solution, and that the code builds exactly this basis, are checked by correspondence only.')
-LEVEL_NOTE = ('Trusted: Lean kernel and Mathlib; np.linalg.pinv(basis) = (BᵀB)⁻¹Bᵀ for full column rank and np.einsum contractions (compared on '
+LEVEL_NOTE = ('Sign convention inherited from C11: odd-j modes are -sin(|m| theta) (the code evaluates sin(m theta) with m < 0), opposite to Noll (1976); fit, compose and remove use the same basis, so every clause here is independent of it. Trusted: Lean kernel and Mathlib; np.linalg.pinv(basis) = (BᵀB)⁻¹Bᵀ for full column rank and np.einsum contractions (compared on '
               'every call with the Lean model run at Float; basis/compose values to 1e-8, fit/remove to 1e-10 x max(1, cond²) — the bound on the Float model\'s own rounding — while '
               'the property itself is judged on the library\'s results at 1e-12 x cond); the harness\'s numpy reference for conditioning and coordinates; float rounding; generator coverage (histories of '
               '6-9 calls, layouts, dtypes).')
 TECHNIQUE = 'Lean 4 proof over Mathlib matrices + executable Lean model of basis/fit/compose/remove with differential correspondence on call histories'
 GEN = ['ZernikeCalls', 'ZernikeR', 'Mesh', 'Util', 'Helper', 'Helper20', 'Hex', 'Extent', 'FieldAccum', 'FieldDispatch', 'FieldIdx', 'FieldMerge']      # every Gen module imported transitively
 OPS = ['C11', 'C12']
-RULE = ('extra cases: a mode requested twice (observed: remove unchanged, coefficient split) and OPDs with NaN / +-inf outside the mask (known finding KF-C12-nonfinite-outside-mask); cases = call histories of 6-9 compose/fit/remove calls in one process on one mask (circular / hexagonal / segmented / off-centre / '
+RULE = ('extra cases: a mode requested twice (observed: remove unchanged, coefficient split) and OPDs with NaN / +-inf outside the mask (must give exactly the result of zeros there); cases = call histories of 6-9 compose/fit/remove calls in one process on one mask (circular / hexagonal / segmented / off-centre / '
         'irregular weighted, sizes 9..22 even and odd; all built by the harness, not by the library): same modes with default then caller-supplied (shifted, rotated) coordinates, both '
         'normalisations, reversed/permuted mode orders, repeated calls; non-empty mode subsets of Noll 1..36 of size 1..6 in random order (never '
         'exactly 1..k), half of the histories with sets made of PAIRS OF ADJACENT indices (all 16 cosine/sine partner pairs (2,3)…(35,36) in rotation, every one in every quick run, and arbitrary (j, j+1); one history in ten with pairs from Noll 37..66), given as list, ndarray or scalar; '
-        'the caller\'s coordinate / mask arrays are created ONCE per history and handed to every call (inputs must come back untouched); the conditioning of every mode set is computed by an independent numpy reference, never by the library; OPDs with and without content outside the mask; inputs C-ordered, Fortran-ordered, '
+        'the caller\'s coordinate / mask arrays are created ONCE per history and handed to every call (inputs must come back untouched); the conditioning of every mode set is computed by an independent numpy reference, never by the library; OPDs with and without content outside the mask; a third of all histories (and half of the conditioning streams) at PHYSICAL amplitudes — OPDs and coefficients of 1 nm .. 120 nm expressed in metres (2^-30, 2^-25, 2^-23), every tolerance relative to the amplitude; inputs C-ordered, Fortran-ordered, '
         'transposed views, strided views, float32 OPDs, bool/int/float32 masks; zernike_basis observed directly (cube and vectorised); medium-conditioned '
         'histories (cond 1e2..1e4, with residual) compared with the model; ill-conditioned full-rank histories (cond up to 1e9, zero residual) judged by the '
         'oracle only; distinct = (mask kind, shape, step list) signature')
@@ -49,7 +49,7 @@ TRUSTED = ['np.linalg.pinv returns (BᵀB)⁻¹Bᵀ for a full-column-rank B (co
 UNPROVEN = ['zernike_fit returns the normal-equation (least-squares) solution: rests on the pinv contract — correspondence only',
             'zernike_basis / zernike_compose evaluate the C11 mode model at the requested Noll indices and coordinates: the argument bindings and the '
             'position -> Noll index map are regenerated from the source (Gen/ZernikeCalls), the values are compared on every call — no theorem about the Python code itself']
-ASSUMPTIONS = ['the OPD is finite at every sample, also outside the mask (NaN / inf outside the mask turn every coefficient into NaN: known finding KF-C12-nonfinite-outside-mask; finite content outside the mask is generated and must not matter)',
+ASSUMPTIONS = ['the OPD is finite at every MASKED sample (content outside the mask — finite, NaN or ±inf — is generated and must not matter)',
                'modes linearly independent on the mask (IsUnit det(BᵀB)); numerically: the property is judged on the real functions for cond(B) <= 1e9 with '
                'tolerance 1e-12 x cond x scale (what a backward-stable least-squares solver delivers); the Lean model (Cramer at Float) is compared for k <= 6, cond <= 1e4',
                'zernike_remove always uses the library-default normalisation (normalize=True; it has no normalize parameter)',
@@ -189,7 +189,7 @@ def _medium_case(rng):
 
 def _special_cases(rng, tier):
     """duplicate mode requests (outside the theorems' hypothesis: what is observed is that a repeated mode changes nothing but the split of
-    its coefficient) and OPDs that are finite on the mask but NaN / inf outside it (KF-C12-nonfinite-outside-mask)"""
+    its coefficient) and OPDs that are finite on the mask but NaN / inf outside it (must equal the zero-outside result)"""
     out = []
     for q in range({'quick': 2, 'thorough': 30, 'search': 6}[tier]):
         size = int(rng.integers(10, 19)); m = _mask(rng, ['circle', 'hexagon', 'offcentre', 'irregular'][q % 4], size)
@@ -209,13 +209,28 @@ def _special_cases(rng, tier):
                     'cond': _cond(m, modes, None), 'oracle_only': True})
     return out
 
+# physical amplitudes: an OPD in metres is a few nanometres to a hundred nanometres.  Dyadic factors (2^-30 ~ 0.93 nm, 2^-25 ~ 30 nm,
+# 2^-23 ~ 119 nm) keep the generated dyadic values exactly representable, also in float32.
+PHYSICAL = [2.0 ** -30, 2.0 ** -25, 2.0 ** -23]
+
+def _scaled(c, S):
+    """the same history with every OPD and coefficient multiplied by S (the case stores the actual values)"""
+    c = dict(c, scale=S, steps=[dict(s_) for s_ in c['steps']])
+    for s_ in c['steps']:
+        for key in ('opd', 'coeffs'):
+            if key in s_: s_[key] = [float(x) * S for x in s_[key]]
+    return c
+
 def generate(rng, tier):
     out = _generate(rng, tier) + _special_cases(rng, tier)
-    out = [_medium_case(rng) for _ in range({'quick': 4, 'thorough': 60, 'search': 12}[tier])] + out
+    # every third history and special case at a physical amplitude (metres): nothing in the property has an absolute scale
+    out = [_scaled(c, PHYSICAL[(i // 3) % 3]) if i % 3 == 0 else c for i, c in enumerate(out)]
+    med = [_medium_case(rng) for _ in range({'quick': 4, 'thorough': 60, 'search': 12}[tier])]
+    out = [_scaled(c, PHYSICAL[i % 3]) if i % 2 else c for i, c in enumerate(med)] + out
     # extremes: ill-conditioned full-rank mode sets (a small sample in the quick tier, the large ones only in the deeper tiers)
     ill = {'quick': [(48, 6, 22), (40, 5, 18)], 'thorough': [(48, 6, 22), (64, 8, 22), (96, 10, 22), (40, 5, 16), (56, 6, 21)],
            'search': [(48, 6, 22), (64, 8, 22), (96, 10, 22), (40, 5, 18)]}[tier]
-    out = [_ill_case(rng, *a) for a in ill] + out
+    out = [_scaled(c, PHYSICAL[0]) if i % 2 else c for i, c in enumerate([_ill_case(rng, *a) for a in ill])] + out
     if tier in ('search', 'thorough'): out.append(_ill_case(rng, 256, 20, 22, few=True))
     return out
 
@@ -225,7 +240,7 @@ PARTNERS = _partners(1, 36)
 PARTNERS_HI = _partners(37, 66)            # radial orders 8..10
 
 def _generate(rng, tier):
-    n = {'quick': 26, 'thorough': 460, 'search': 100}[tier]
+    n = {'quick': 26, 'thorough': 400, 'search': 100}[tier]
     kinds = ['circle', 'hexagon', 'segmented', 'offcentre', 'irregular']
     out = []
     ptr = int(rng.integers(0, len(PARTNERS)))
@@ -290,6 +305,7 @@ def tags(c):
     t = [c['kind'], 'model-compared' if _judged(c) and not c.get('oracle_only') else 'oracle-only', 'mask:' + c['mask_dtype'],
          'cond<=1e4' if c['cond'] <= 1e4 else 'cond<=1e9' if c['cond'] <= 1e9 else 'unjudged(cond>1e9)']
     if max(c['shape']) > 64: t.append('large-array')
+    t.append('amplitude:metres(1e-9..1e-7)' if c.get('scale', 1.0) < 1e-3 else 'amplitude:unit')
     for s in c['steps']:
         if s.get('outside'): t.append('opd-outside-mask:' + s['outside'])
         if len(set(s['modes'])) < len(s['modes']): t.append('modes:duplicate')
@@ -451,6 +467,7 @@ def compare(c, io, mo):
     if 'exc' in io or c.get('oracle_only') or io.get('touched'): return None          # judged by the oracle
     for m in mo:
         if not m.get('ok'): return f"model refused: {m.get('err')}"
+    S = c.get('scale', 1.0)          # amplitude scale of the history: every tolerance is relative to it (OPDs in metres are ~1e-9..1e-7)
     k = 0
     for i, (s, o) in enumerate(zip(c['steps'], io['steps'])):
         if s['t'] == 'basis':
@@ -459,26 +476,26 @@ def compare(c, io, mo):
             wshape = [km, want.shape[1]] if s['vectorize'] else [km] + c['shape']
             if o['basis_shape'] != wshape: return f"{_where(c, i, s)}: zernike_basis(vectorize={s['vectorize']}) returned shape {o['basis_shape']}, expected {wshape}"
             got = np.array(o['basis']).reshape(km, -1)
-            sc = max(1.0, np.abs(want).max())
+            sc = max(1.0, np.abs(want).max())          # basis values are O(1) whatever the OPD scale
             if np.abs(got - want).max() > TOL * sc * 10:
                 a_, b_ = np.unravel_index(np.abs(got - want).argmax(), got.shape)
                 return f"{_where(c, i, s)}: zernike_basis plane {a_} (mode {s['modes'][a_]}) sample {b_}: impl {got[a_, b_]} model {want[a_, b_]}"
         elif s['t'] == 'fit':
             want = np.array(vlib.unfl(mo[k]['fit'])); k += 1
             if _judged(c):
-                sc = max(1.0, np.abs(o['opd_in']).max(), np.abs(want).max())
+                sc = max(S, np.abs(o['opd_in']).max(), np.abs(want).max())
                 if np.abs(np.array(o['fit']) - want).max() > _ctol(c) * sc:
                     return f"{_where(c, i, s)}: zernike_fit {o['fit']} differs from the model's normal-equation solution {list(want)}"
         elif s['t'] == 'rm':
             want = np.array(vlib.unfl(mo[k]['residual'])); k += 1
             if o['rem_shape'] != c['shape']: return f"{_where(c, i, s)}: zernike_remove returned shape {o['rem_shape']}"
             if _judged(c):
-                sc = max(1.0, np.abs(o['opd_in']).max()) * len(s['modes'])
+                sc = max(S, np.abs(o['opd_in']).max()) * len(s['modes'])
                 if np.abs(np.array(o['rem']) - want).max() > _ctol(c) * sc:
                     return f"{_where(c, i, s)}: zernike_remove differs from the model's opd - B·fit(opd) (max {np.abs(np.array(o['rem']) - want).max():.3e})"
         elif s['t'] in ('rt', 'span'):
             wc = np.array(vlib.unfl(mo[k]['opd'])); k += 1
-            sc = max(1.0, np.abs(wc).max())
+            sc = max(S, np.abs(wc).max())
             if np.abs(np.array(o['opd_c']) - wc).max() > TOL * sc * 10:
                 return f"{_where(c, i, s)}: zernike_compose differs from the model (coefficient i <-> Noll i+1) by {np.abs(np.array(o['opd_c']) - wc).max():.3e}"
             if s['t'] == 'rt':
@@ -504,6 +521,7 @@ def oracle(c, io):
     if t: return t
     if 'exc' in io: return f"call {io.get('at_step', 0) + 1} raised {io['exc']}: {io.get('msg')}"
     if c['cond'] > 1e9: return None      # modes not (numerically) independent on this mask: outside the property's hypothesis
+    S = c.get('scale', 1.0)              # amplitude scale of the history: every tolerance is relative to it
     # a backward-stable least-squares solution is accurate to ~cond x machine epsilon (measured for pinv: ~1e-16 x cond); a solver that
     # squares the conditioning (normal equations) is off by ~cond^2 x epsilon and must not pass
     tol = 1e-12 * max(c['cond'], 10.0)                 # consistent problems (compose -> fit, span -> remove)
@@ -517,28 +535,28 @@ def oracle(c, io):
             if o['nonfinite']:
                 return (f"{w}: the OPD is finite on every masked sample and {s['outside']} outside the mask: {what} returned {o['nonfinite']} non-finite "
                         f"values of {o['n_judged']} — samples outside the mask must not matter")
-            if o['dev'] > tol_r * max(1.0, np.abs(o['opd_in']).max()):
+            if o['dev'] > tol_r * max(S, np.abs(o['opd_in']).max()):
                 return f"{w}: {what} changes by {o['dev']:.3e} when the samples outside the mask are set to {s['outside']} — samples outside the mask must not matter"
             continue
         if s['t'] == 'dup':
-            sc = max(1.0, np.abs(o['opd_in']).max())
+            sc = max(S, np.abs(o['opd_in']).max())
             if o['rem_dev'] > tol_r * sc: return f"{w}: requesting a mode twice changes zernike_remove by {o['rem_dev']:.3e}"
             for u, a, b in zip(dict.fromkeys(s['modes']), o['fit_dup_sum'], o['fit_uniq']):
                 if abs(a - b) > tol_r * sc: return f"{w}: requesting a mode twice: the coefficients of mode {u} sum to {a}, requested once it is {b}"
             continue
         if s['t'] == 'rt':
-            sc = max(1.0, np.abs(o['opd_c']).max())
+            sc = max(S, np.abs(o['opd_c']).max())
             for m_, a, b in zip(s['modes'], o['fit'], s['coeffs']):
                 if abs(a - b) > tol * sc: return f'{w}: fit(compose(c)) != c — coefficient of mode {m_} is {a}, composed with {b}'
         elif s['t'] == 'span':
-            sc = max(1.0, np.abs(o['opd_c']).max())
+            sc = max(S, np.abs(o['opd_c']).max())
             if np.abs(o['rem']).max() > tol * sc: return f"{w}: removing the modes from an OPD made only of them leaves {np.abs(o['rem']).max():.3e}"
         elif s['t'] == 'rm':
-            sc = max(1.0, np.abs(o['opd_in']).max())
+            sc = max(S, np.abs(o['opd_in']).max())
             if np.abs(o['fit_rem']).max() > tol_r * sc: return f"{w}: fit(remove(opd)) = {o['fit_rem']} is not zero"
             if o['rem2_diff'] > tol_r * sc: return f"{w}: remove is not idempotent (max change {o['rem2_diff']:.3e})"
         else:
-            sc = max(1.0, np.abs(o['opd_in']).max())
+            sc = max(S, np.abs(o['opd_in']).max())
             for a, b in zip(o['fit'], o['fit_rev']):
                 if abs(a - b) > tol_r * sc: return f"{w}: fit depends on the order of the requested modes: {o['fit']} vs {o['fit_rev']} (reversed request)"
             # the same call (same values of every argument) must give the same answer whenever and however it is made
@@ -564,18 +582,3 @@ def shrink(c):
                 t = dict(s, modes=s['modes'][:q] + s['modes'][q + 1:])
                 if 'coeffs' in s: t['coeffs'] = s['coeffs'][:q] + s['coeffs'][q + 1:]
                 d = dict(c); d['steps'] = list(c['steps']); d['steps'][i] = t; yield d
-
-# ------------------------------------------------------------------------------------------ known finding
-KF_NONFINITE = 'KF-C12-nonfinite-outside-mask'
-
-def matches_finding(kf, case, msg):
-    if kf.get('id') != KF_NONFINITE: return False
-    return (case.get('kind') == 'nonfinite-outside' and all(s.get('outside') for s in case['steps'])
-            and 'non-finite' in msg and 'samples outside the mask must not matter' in msg)
-
-def replay_finding(kf):
-    if kf.get('id') != KF_NONFINITE: return False
-    c = kf['witness']
-    io = impl(c)
-    msg = oracle(c, io)
-    return bool(msg and matches_finding(kf, c, msg))
